@@ -5,6 +5,7 @@ import (
 	"sort"
 	"strings"
 	"time"
+	"unicode"
 )
 
 // diagClasses maps diagnostics to the set of error classes they mention.
@@ -58,6 +59,69 @@ type showOut struct {
 	Injectors []string
 }
 
+// canonSpelling rewrites the predeclared alternative spellings of a type (rune, byte, any)
+// to the spelling the model's type keys use; wire may print either. Qualified names
+// (pkg.any) are left alone.
+func canonSpelling(s string) string {
+	var b strings.Builder
+	rs := []rune(s)
+	isWord := func(r rune) bool { return r == '_' || unicode.IsLetter(r) || unicode.IsDigit(r) }
+	for i := 0; i < len(rs); {
+		if !isWord(rs[i]) {
+			b.WriteRune(rs[i])
+			i++
+			continue
+		}
+		j := i
+		for j < len(rs) && isWord(rs[j]) {
+			j++
+		}
+		w := string(rs[i:j])
+		if i == 0 || rs[i-1] != '.' {
+			switch w {
+			case "rune":
+				w = "int32"
+			case "byte":
+				w = "uint8"
+			case "any":
+				w = "interface{}"
+			}
+		}
+		b.WriteString(w)
+		i = j
+	}
+	return b.String()
+}
+
+// normGroupKey canonicalises the spellings in a ", "-separated list of types and sorts it
+// again (commas nested in brackets do not separate).
+func normGroupKey(s string) string {
+	if s == "no inputs" {
+		return s
+	}
+	var parts []string
+	depth, start := 0, 0
+	for i := 0; i < len(s); i++ {
+		switch s[i] {
+		case '(', '[', '{':
+			depth++
+		case ')', ']', '}':
+			depth--
+		case ',':
+			if depth == 0 && i+1 < len(s) && s[i+1] == ' ' {
+				parts = append(parts, s[start:i])
+				start = i + 2
+			}
+		}
+	}
+	parts = append(parts, s[start:])
+	for i := range parts {
+		parts[i] = canonSpelling(parts[i])
+	}
+	sort.Strings(parts)
+	return strings.Join(parts, ", ")
+}
+
 func parseShow(stdout string) *showOut {
 	so := &showOut{Sets: map[string]*showSet{}}
 	var cur *showSet
@@ -82,9 +146,9 @@ func parseShow(stdout string) *showOut {
 		case strings.HasPrefix(line, "\t\t\t"):
 			// position line
 		case strings.HasPrefix(line, "\t\t"):
-			cur.Groups[group] = append(cur.Groups[group], strings.TrimPrefix(line, "\t\t"))
+			cur.Groups[group] = append(cur.Groups[group], canonSpelling(strings.TrimPrefix(line, "\t\t")))
 		case strings.HasPrefix(line, "\tOutputs given "):
-			group = strings.TrimSuffix(strings.TrimPrefix(line, "\tOutputs given "), ":")
+			group = normGroupKey(strings.TrimSuffix(strings.TrimPrefix(line, "\tOutputs given "), ":"))
 			if _, ok := cur.Groups[group]; !ok {
 				cur.Groups[group] = nil
 			}
@@ -134,7 +198,7 @@ func showModel(p *Program, an *Analysis, s *Set) (imports []string, groups map[s
 		memo[k] = map[string]bool{}
 		pv := si.prov[k]
 		if pv == nil {
-			memo[k] = map[string]bool{t.Str(p): true}
+			memo[k] = map[string]bool{canonSpelling(t.Str(p)): true}
 			return memo[k]
 		}
 		m := map[string]bool{}
@@ -158,7 +222,7 @@ func showModel(p *Program, an *Analysis, s *Set) (imports []string, groups map[s
 		if len(names) > 0 {
 			h = strings.Join(names, ", ")
 		}
-		groups[h] = append(groups[h], pv.Ty.Str(p))
+		groups[h] = append(groups[h], canonSpelling(pv.Ty.Str(p)))
 	}
 	for h := range groups {
 		sort.Strings(groups[h])
